@@ -1748,6 +1748,11 @@ class ConnectionHeartbeat(Thread):
                         with connection.lock:
                             connection.in_flight -= 1
                         connection.reset_idle()
+                        if not connection.is_control_connection:
+                            # the slot was given back without going through the pool: let the pool look at
+                            # the connection (a replaced connection whose last stream was this heartbeat
+                            # is closed there)
+                            f.owner.return_connection(connection, stream_was_orphaned=True)
                     except Exception as e:
                         log.warning("Heartbeat failed for connection (%s) to %s",
                                     id(connection), connection.endpoint)
